@@ -2,6 +2,7 @@
 substituting channel (pbv dp), traces validated by TraceDp.tla (rule monitor DpRules.tla);
 layer-M model MC_Dp explored by TLC."""
 import json
+import re
 import os
 
 import core
@@ -11,6 +12,41 @@ PLAN = {
     "thorough": [("random", 1200), ("clean", 60), ("empty", 6), ("neg", 100), ("flags", 100), ("edge", 200)],
 }
 RUNS_PER_JOB = {"quick": 5, "thorough": 25}
+
+
+SCHED_CFG = {"quick": ["MC_DpSched_quick.cfg"], "thorough": ["MC_DpSched_thorough.cfg", "MC_DpSched_np2.cfg"]}
+_SCHED = re.compile(r'^<<"SCHED", "(.*)">>\s*$', re.M)
+
+
+def dp_schedules(tier, d, nchunks):
+    """spec -> impl: TLC prints one shortest fault schedule per reachable state of MC_DpSched; the leaves of that
+    shortest-path tree (schedules that are no prefix of another one) cover every state and are replayed on the real
+    DpMaster against the reference slave.  Returns (chunk files, number of schedules, model results)."""
+    leaves = []
+    models = []
+    for cfg in SCHED_CFG[tier]:
+        r = core.tlc_model("MC_DpSched", cfg, workers=1, timeout=3000, xmx="8g")
+        models.append(r)
+        hs = []
+        for m in _SCHED.finditer(r["output"]):
+            j = json.loads(core._unescape(m.group(1)))
+            j.pop("key", None)
+            hs.append(j)
+        key = lambda j: tuple((i["k"], i["p"], i["r"]) for i in j["h"])
+        pref = set()
+        for j in hs:
+            h = key(j)
+            for k in range(1, len(h)):
+                pref.add(h[:k])
+        leaves += [j for j in hs if key(j) not in pref]
+    files = []
+    for c in range(nchunks):
+        path = os.path.join(d, "sched_%02d.ndjson" % c)
+        with open(path, "w") as fh:
+            for j in leaves[c::nchunks]:
+                fh.write(json.dumps(j) + "\n")
+        files.append(path)
+    return files, len(leaves), models
 
 
 def dp_results(tier):
@@ -31,6 +67,10 @@ def dp_results(tier):
             out = os.path.join(d, "%s_%03d.ndjson" % (mode, k))
             jobs.append((["dp", "--mode", mode, "--tier", tier, "--seed", seed * 104729 + k, "--runs", m, "--mout", out + ".m"], out, mode))
             k += m
+    sfiles, nsched, smodels = dp_schedules(tier, d, 12 if tier == "quick" else 14)
+    for c, sf in enumerate(sfiles):
+        out = os.path.join(d, "replay_%02d.ndjson" % c)
+        jobs.append((["dp", "--sched", sf, "--tier", tier, "--seed", seed * 104729 + 7000 + c, "--mout", out + ".m"], out, "sched"))
     infos = core.run_drivers([(a, o) for a, o, _ in jobs])
     results = core.tlc_traces("TraceDp", "TraceDp.cfg", [o for _, o, _ in jobs])
     # conformance of the real DpMaster with the layer-M operators (Dp.tla): every recorded call-back
@@ -48,6 +88,9 @@ def dp_results(tier):
         res["driver_args"] = args
         res["hang"] = info.get("hang", False)
         files.append(res)
+    if files:
+        files[0]["sched_models"] = [{k: m[k] for k in ("module", "cfg", "generated", "distinct", "ok", "timed_out", "wall_s")} for m in smodels]
+        files[0]["schedules"] = nsched
     with open(cache, "w") as fh:
         json.dump(files, fh)
     return files
@@ -69,6 +112,12 @@ def feed(rep, files):
                     "context": [ctx[k] for k in sorted(ctx)], "tracespec": "TraceDp"}
         rep.add_trace_result(res, info)
         rep.traces += res.get("runs", 0)
+        if "schedules" in res:
+            rep.extra["schedules_replayed"] = res["schedules"]
+            for m in res.get("sched_models", []):
+                rep.model_runs.append(m)
+                rep.states += m.get("distinct", 0)
+                rep.transitions += m.get("generated", 0)
         if res.get("mdrift"):
             rep.extra.setdefault("model_drift", []).extend(res["mdrift"][:3])
         mc = rep.extra.setdefault("model_call_coverage", {})
